@@ -210,7 +210,7 @@ def run_group(pid, grp, tier, out, repo, work):
         name = "mir:%s[%s]%s" % (sc["fn"], ",".join(feats) or "default", "" if outer_tier == "quick" else ("@quick-bounds" if tier_run == "quick" else "@deep-bounds"))
         ob = {"engine": "mir", "name": name, "features": feats, "bounds": sc.get("bounds", ""), "encodes": sc.get("encodes", "")}
         maxp = sc.get("max_paths", {"quick": 30000, "thorough": 400000})[tier] if isinstance(sc.get("max_paths"), dict) else sc.get("max_paths", 30000 if tier == "quick" else 400000)
-        budget = sc.get("budget", 240 if tier == "quick" else int(os.environ.get("VERIF_DEEP_BUDGET", "300")))
+        budget = sc.get("budget", 240 if tier == "quick" else int(os.environ.get("VERIF_DEEP_BUDGET", "120")))
         try:
             viol, unsup, st = run_scenario(prog, fn, pid, tier, maxp, budget, attribute_all=grp.get("attribute_all", False) or sc.get("attribute_all", False))
         except Exception as e:      # an interpreter bug is never a verdict
